@@ -8,6 +8,7 @@ invariants of the crystal definitionally from w (pure translations, atoms per pr
 of the space group modulo the lattice) and from the constructed world, and decides every clause.
 Crystal() spends most of its time in genBZG, so the constructions run in a (seeded, deterministic) process pool.
 """
+import itertools
 import json
 import multiprocessing
 import random
@@ -22,17 +23,40 @@ LEVEL = "model_checking"
 FIXED_Q = ["fcc", "hcp", "square", "b2"]
 
 
+def dense_world(rng, dim):
+    """A random multi-species decoration of a coarse grid (D = 2 in 3D, D = 4 in 2D): sublattices of single species
+    then have many translations of their own that are NOT translations of the crystal, and the world itself may be
+    a non-primitive description."""
+    lat = rng.choice([k for k, m in worlds.LATTICES.items() if len(m) == dim])
+    pattern = rng.choice([(4, 2), (2, 4), (2, 2, 2), (4, 2, 2), (3, 2), (2, 2), (1, 2, 2), (4, 4), (3, 3, 2), (2, 1, 2)])
+    D = 2 if dim == 3 else 4
+    grid = list(itertools.product(range(D), repeat=dim))
+    if sum(pattern) > len(grid):
+        pattern = pattern[:2]
+    rng.shuffle(grid)
+    basis, pos = [], 0
+    for n in pattern:
+        basis.append([list(u) for u in grid[pos:pos + n]])
+        pos += n
+    w = worlds.W(lat, D, basis)
+    w["name"] = "dense-%s-D%d-%s" % (lat, D, "_".join(str(n) for n in pattern))
+    return w
+
+
 def base_worlds(ctx):
     rng = ctx.rng
     names = sorted(worlds.CATALOGUE)
     if ctx.tier == "quick":
-        chosen = list(FIXED_Q) + rng.sample([n for n in names if n not in FIXED_Q], 4)
+        chosen = list(FIXED_Q) + rng.sample([n for n in names if n not in FIXED_Q], 2)
         wl = [dict(worlds.CATALOGUE[n], name=n) for n in chosen]
-        wl += [worlds.random_world(rng, dim=2, maxatoms=3), worlds.random_world(rng, dim=3, maxatoms=3)]
+        wl += [worlds.random_world(rng, dim=rng.choice((2, 3)), maxatoms=3)]
+        wl += [dense_world(rng, 3), dense_world(rng, 3), dense_world(rng, 2)]
         return wl, 32
     wl = [dict(worlds.CATALOGUE[n], name=n) for n in names]
     for i in range(10):
         wl.append(worlds.random_world(rng, dim=2 if i % 3 == 0 else 3, maxatoms=4))
+    for i in range(16):
+        wl.append(dense_world(rng, 2 if i % 4 == 0 else 3))
     return wl, None
 
 
@@ -43,13 +67,16 @@ def construct(w, S, rng):
     sw = worlds.supercell_world(w, S)
     A = worlds.lattice_of(w, rng, 1.0, True)
     jitter = rng.choice((0.0, 0.0, 1e-12, 1e-10))
-    basis = []
+    basis, ibasis = [], []
     for sp in sw["basis"]:
-        lst = [np.array(u, dtype=float) / sw["D"] for u in sp]
-        rng.shuffle(lst)
+        ilst = [list(u) for u in sp]
+        rng.shuffle(ilst)
+        ibasis.append(ilst)
+        lst = [np.array(u, dtype=float) / sw["D"] for u in ilst]
         if jitter:
             lst = [x + np.array([rng.uniform(-jitter, jitter) for _ in x]) for x in lst]
         basis.append(lst)
+    sw["basis"] = ibasis          # the description exactly as handed over (atom order included)
     chem = ["S%d" % c for c in range(len(basis))]
     try:
         crys = crystal.Crystal(np.dot(A, np.array(S, dtype=float)), basis, chemistry=chem)
@@ -57,6 +84,56 @@ def construct(w, S, rng):
         fr = [f.name for f in traceback.extract_tb(ex.__traceback__) if "onsager" in f.filename]
         return sw, None, type(ex).__name__, fr[-1] if fr else "?", str(ex), jitter
     return sw, crys, "", "", "", jitter
+
+
+def pure_translations(basis, D):
+    """All vectors t (grid units, mod D) with basis + t = basis for every species -- exact integers."""
+    d = len(basis[0][0])
+    sets = [set(tuple(u) for u in sp) for sp in basis]
+    small = min(basis, key=len)
+    out = []
+    for u in small:
+        t = tuple((u[k] - small[0][k]) % D for k in range(d))
+        if all(tuple((v[k] + t[k]) % D for k in range(d)) in sets[c] for c, sp in enumerate(basis) for v in sp):
+            out.append(t)
+    return out
+
+
+def description_class(sw, ntrans):
+    """An INPUT-level signature of a supercell description (used only to key findings, never for a verdict).
+
+    Scan the atoms of the (first) smallest species in the order given; take the first difference to the first
+    atom that is a translation of the whole description and write it as T/M with M = gcd of the species' atom
+    counts.  "first-nonunit": the smallest non-zero |T_k| does not divide M and the other T's (so {t, a_i, a_j} do
+    not generate the lattice); "first-unit-final": it does, and t alone generates all `ntrans` translations of the
+    description; "first-unit-more": it does, but further translations remain; "irreducible": none."""
+    import math
+    basis, D = sw["basis"], sw["D"]
+    d = sw["dim"]
+    counts = [len(sp) for sp in basis]
+    M = 0
+    for c in counts:
+        M = math.gcd(M, c)
+    if M == 1:
+        return "irreducible"
+    sidx = min(range(len(counts)), key=counts.__getitem__)
+    sets = [set(tuple(u) for u in sp) for sp in basis]
+    init = basis[sidx][0]
+    for u in basis[sidx][1:]:
+        tn = [u[k] - init[k] for k in range(d)]
+        if any((M * x) % D for x in tn):
+            continue
+        T = [M * x // D for x in tn]
+        if not all(tuple((v[k] + tn[k]) % D for k in range(d)) in sets[c] for c, sp in enumerate(basis) for v in sp):
+            continue
+        m = min(abs(x) for x in T if x)
+        if M % m or any(x % m for x in T):
+            return "first-nonunit"
+        g = M
+        for x in T:
+            g = math.gcd(g, x)
+        return "first-unit-final" if M // g == ntrans else "first-unit-more"
+    return "irreducible"
 
 
 def do_chunk(args):
@@ -71,7 +148,8 @@ def do_chunk(args):
         sw = {kk: sw[kk] for kk in ("dim", "M", "D", "basis")}
         run_ = {"S": S.tolist(), "sw": sw, "raised": exc, "rh": False, "nG": 0, "o": 1}
         info = {"n": n, "H": H.tolist(), "S": S.tolist(), "jitter": jitter, "msg": msg, "where": where,
-                "ow": None, "projection": ""}
+                "ow": None, "projection": "",
+                "cls": description_class(sw, n * len(pure_translations(w["basis"], w["D"])))}
         if crys is not None:
             try:
                 info["ow"] = worlds.observe(crys, 1.0, Dhint=w["D"])
@@ -136,7 +214,7 @@ def run(ctx):
             rmeta.append(info)
         cases.append({"w": {kk: w[kk] for kk in ("dim", "M", "D", "basis")}, "obs": obs, "runs": runs})
         meta.append((w, rmeta))
-    fails, infos, results = tlc.run_cases("Check_C19", cases, shards=10 if quick else 14, timeout=2400)
+    fails, infos, results = tlc.run_cases("Check_C19", cases, shards=5 if quick else 14, timeout=2400)
     for r in results:
         ctx.add_model(r)
     stats = {"constructions": 0, "raised": 0, "distinct_constructed_worlds": 0, "nonprimitive_base_worlds": 0,
@@ -153,6 +231,8 @@ def run(ctx):
             stats["constructions"] += 1
             stats["raised"] += bool(r["raised"])
             stats["left_handed_descriptions"] += idet(r["S"]) < 0
+            ck = "class:%s:%s" % (info["cls"], "raised" if r["raised"] else "constructed")
+            stats[ck] = stats.get(ck, 0) + 1
             ctx.case("%s|%s" % (w["name"], info["H"]), nontrivial=not r["raised"])
             if j not in runfails:
                 continue
@@ -160,7 +240,7 @@ def run(ctx):
             if any(nm.startswith("harness_") for nm in names):
                 raise tlc.TLCError("harness: supercell description of %s by %s is not exact" % (w["name"], r["S"]))
             exc = "%s@%s" % (r["raised"], info["where"]) if r["raised"] else "-"
-            ctx.violation("clause|%s|%s|%s|det=%d" % ("+".join(names), exc, w["name"], info["n"]),
+            ctx.violation("clause|%s|%s|%s|%s|det=%d" % ("+".join(names), exc, info["cls"], w["name"], info["n"]),
                           "world %s, supercell matrix %s (index %d, jitter %g): Crystal(A.S, basis)%s fails clause(s) %s; "
                           "constructed world: %s, %d operations, right-handed=%s" % (
                               w["name"], r["S"], info["n"], info["jitter"],
